@@ -21,8 +21,7 @@ fn var_os_stub<K: AsRef<OsStr>>(key: K) -> Option<OsString> {
     }
 }
 
-fn set(key: &'static str) -> Option<&'static str> {
-    let v = vk::any_usize_in(0, 8);
+fn set(key: &'static str, v: usize) -> Option<&'static str> {
     unsafe {
         WANT_KEY = key;
         VALUE = v;
@@ -35,50 +34,78 @@ fn only_that_variable() -> bool {
     unsafe { !ASKED_OTHER }
 }
 
+// Each harness walks the nine candidate values concretely (a symbolic choice among string
+// constants of different lengths made CBMC report a spurious mismatch for some literals — the
+// same check passes for every value taken concretely; see DESIGN.md section 8).
+
 #[cfg_attr(kani, kani::proof, kani::unwind(16), kani::stub(std::env::var_os, var_os_stub))]
 fn query_no_color() {
-    let v = set("NO_COLOR");
-    let want = matches!(v, Some(s) if !s.is_empty());
-    assert!(crate::no_color() == want, "NO_COLOR disables colour iff it is set and not empty");
-    assert!(only_that_variable(), "no_color reads NO_COLOR only");
+    let mut i = 0;
+    while i < 9 {
+        let v = set("NO_COLOR", i);
+        let want = matches!(v, Some(s) if !s.is_empty());
+        assert!(crate::no_color() == want, "NO_COLOR disables colour iff it is set and not empty");
+        assert!(only_that_variable(), "no_color reads NO_COLOR only");
+        i += 1;
+    }
 }
 
 #[cfg_attr(kani, kani::proof, kani::unwind(16), kani::stub(std::env::var_os, var_os_stub))]
 fn query_clicolor_force() {
-    let v = set("CLICOLOR_FORCE");
-    let want = matches!(v, Some(s) if !s.is_empty());
-    assert!(crate::clicolor_force() == want, "CLICOLOR_FORCE forces colour iff it is set and not empty");
-    assert!(only_that_variable(), "clicolor_force reads CLICOLOR_FORCE only");
+    let mut i = 0;
+    while i < 9 {
+        let v = set("CLICOLOR_FORCE", i);
+        let want = matches!(v, Some(s) if !s.is_empty());
+        assert!(crate::clicolor_force() == want, "CLICOLOR_FORCE forces colour iff it is set and not empty");
+        assert!(only_that_variable(), "clicolor_force reads CLICOLOR_FORCE only");
+        i += 1;
+    }
 }
 
 #[cfg_attr(kani, kani::proof, kani::unwind(16), kani::stub(std::env::var_os, var_os_stub))]
 fn query_clicolor() {
-    let v = set("CLICOLOR");
-    let want = v.map(|s| s != "0");
-    assert!(crate::clicolor() == want, "CLICOLOR: unset = no opinion, `0` = disabled, anything else = enabled");
-    assert!(only_that_variable(), "clicolor reads CLICOLOR only");
+    let mut i = 0;
+    while i < 9 {
+        let v = set("CLICOLOR", i);
+        let want = v.map(|s| s != "0");
+        assert!(crate::clicolor() == want, "CLICOLOR: unset = no opinion, `0` = disabled, anything else = enabled");
+        assert!(only_that_variable(), "clicolor reads CLICOLOR only");
+        i += 1;
+    }
 }
 
 #[cfg_attr(kani, kani::proof, kani::unwind(16), kani::stub(std::env::var_os, var_os_stub))]
 fn query_term() {
-    let v = set("TERM");
-    let want = matches!(v, Some(s) if s != "dumb");
-    assert!(crate::term_supports_color() == want, "TERM: colour iff set to anything other than `dumb`");
-    assert!(crate::term_supports_ansi_color() == want, "TERM: ANSI colour like colour on non-Windows platforms");
-    assert!(only_that_variable(), "term_supports_color reads TERM only");
+    let mut i = 0;
+    while i < 9 {
+        let v = set("TERM", i);
+        let want = matches!(v, Some(s) if s != "dumb");
+        assert!(crate::term_supports_color() == want, "TERM: colour iff set to anything other than `dumb`");
+        assert!(crate::term_supports_ansi_color() == want, "TERM: ANSI colour like colour on non-Windows platforms");
+        assert!(only_that_variable(), "term_supports_color reads TERM only");
+        i += 1;
+    }
 }
 
 #[cfg_attr(kani, kani::proof, kani::unwind(16), kani::stub(std::env::var_os, var_os_stub))]
 fn query_truecolor() {
-    let v = set("COLORTERM");
-    let want = matches!(v, Some("truecolor") | Some("24bit"));
-    assert!(crate::truecolor() == want, "COLORTERM: truecolor iff `truecolor` or `24bit`");
-    assert!(only_that_variable(), "truecolor reads COLORTERM only");
+    let mut i = 0;
+    while i < 9 {
+        let v = set("COLORTERM", i);
+        let want = matches!(v, Some("truecolor") | Some("24bit"));
+        assert!(crate::truecolor() == want, "COLORTERM: truecolor iff `truecolor` or `24bit`");
+        assert!(only_that_variable(), "truecolor reads COLORTERM only");
+        i += 1;
+    }
 }
 
 #[cfg_attr(kani, kani::proof, kani::unwind(16), kani::stub(std::env::var_os, var_os_stub))]
 fn query_ci() {
-    let v = set("CI");
-    assert!(crate::is_ci() == v.is_some(), "CI: any value counts, only presence matters");
-    assert!(only_that_variable(), "is_ci reads CI only");
+    let mut i = 0;
+    while i < 9 {
+        let v = set("CI", i);
+        assert!(crate::is_ci() == v.is_some(), "CI: any value counts, only presence matters");
+        assert!(only_that_variable(), "is_ci reads CI only");
+        i += 1;
+    }
 }
